@@ -132,6 +132,8 @@ def trim_twice(run, h, cases):
 class Driver:
     def __init__(self, h, rng, wd):
         self.h, self.rng, self.wd = h, rng, wd
+        # 100 Hz, or 75 Hz whose sampling interval has no short decimal form (the time step must persist exactly)
+        self.dt = [0.01, 1.0 / 75.0][rng.randint(2)]
         self.w = World()
         self.live = {}      # id -> python object
         self.kind = {}
@@ -184,7 +186,7 @@ class Driver:
             t = self.nid("t")
 
             def f():
-                ts = h.TimeSeries(self.live[a], 0.01)
+                ts = h.TimeSeries(self.live[a], self.dt)
                 self.live[t], self.kind[t] = ts, "ts"
                 self.w.add(t, "ts", ts_slots(ts))
             return self.log("NewTs", dict(a=a, t=t), [t], f)
@@ -233,8 +235,9 @@ class Driver:
             s = self.pick("rec")
             if s is None or self.live[s].ns.n_samples < 24:
                 return
-            L = float(rng.choice([0.1, 0.2]))
-            nw = int(self.live[s].ns.n_samples / int(round(L / 0.01)))
+            kk = int(rng.choice([10, 20]))
+            L = kk * self.dt
+            nw = int(self.live[s].ns.n_samples / kk)
             ids = [self.nid("r") for _ in range(nw)]
 
             def f():
@@ -248,8 +251,9 @@ class Driver:
             s = self.pick("ts")
             if s is None or self.live[s].n_samples < 24:
                 return
-            L = float(rng.choice([0.1, 0.2]))
-            nw = int(self.live[s].n_samples / int(round(L / 0.01)))
+            kk = int(rng.choice([10, 20]))
+            L = kk * self.dt
+            nw = int(self.live[s].n_samples / kk)
             ids = [self.nid("t") for _ in range(nw)]
 
             def f():
@@ -287,8 +291,8 @@ class Driver:
                 with warnings.catch_warnings():
                     warnings.simplefilter("ignore")
                     if what == "trim":
-                        dur = (rec.ns.n_samples - 1) * 0.01
-                        rec.trim(0.01 * rng.randint(0, 3), dur - 0.01 * rng.randint(0, 3))
+                        dur = (rec.ns.n_samples - 1) * self.dt
+                        rec.trim(self.dt * rng.randint(0, 3), dur - self.dt * rng.randint(0, 3))
                     elif what == "filter":
                         rec.butterworth_filter([[2.0, None], [None, 20.0], [2.0, 20.0]][rng.randint(3)])
                     elif what == "detrend":
